@@ -518,13 +518,14 @@ func init() {
 		ID:    "C15",
 		Level: "model_checking",
 		Rule: "bindings built directly as Go values (nil, struct binding, slice bindings of 0-2 blocks; blocks with <=2 fields over 8 keys {x X y foo_bar in in.p emb z} and 10 values {int, float, string, bool, nil, int32, nested blocks named/unnamed/deep, a block with a nil Fields map}) crossed with ~1000 targets (nil, non-pointers, nil pointers, pointer to pointer, pointers to every Go kind, slices of non-structs and of pointers, hand-declared structs with embedded / embedded-pointer / unexported / tagged / colliding fields, generated structs with 1-2 fields over 20 field kinds). " +
-			"For each pair EVERY map iteration order of every range-over-map inside Bind is explored through the map-order choice point of the rewritten package. Oracle on every order: never panics; nil only if an independent matcher finds every key (and the name) stored unchanged in a distinct exported assignable field; on error a slice target is unchanged; fully storable plain cases must succeed.",
-		Subs:           []*fw.Sub{subC15},
+			"For each pair EVERY map iteration order of every range-over-map inside Bind is explored through the map-order choice point of the rewritten package. Oracle on every order: never panics; nil only if an independent matcher finds every key (and the name) stored unchanged in a distinct exported assignable field; on error a slice target is unchanged; fully storable plain cases must succeed. Plus every history of 2 (thorough 3) Bind calls over three distinct struct types that print the same name but differ in layout and tags (state carried between calls).",
+		Subs:           []*fw.Sub{subC15, subC15Hist},
 		BudgetQuick:    100,
 		BudgetThorough: 1500,
 		Assumptions:    []string{"struct targets with more than 2 generated fields and blocks with more than 2 fields are outside the bound"},
 		Run: func(c *fw.Ctx) {
 			c15Tables()
+			c15Histories(c)
 			bs := c15Bindings(c.Quick())
 			ts := c15Targets()
 			c.Bound("bindings", len(bs))
@@ -551,4 +552,85 @@ func init() {
 			return v
 		},
 	})
+}
+
+// ---------------------------------------------------------------- histories over same-named types
+
+// Three distinct struct types that print the same name ("checks.Rec") but have different
+// layouts and tags: a cache keyed by the printed type name would confuse them.
+func localRecA() any {
+	type Rec struct {
+		A int `bcl:"x"`
+		B string
+	}
+	return &Rec{}
+}
+func localRecB() any {
+	type Rec struct {
+		B string
+		C int `bcl:"y"`
+		A int `bcl:"x"`
+	}
+	return &Rec{}
+}
+func localRecC() any {
+	type Rec struct {
+		X int
+		Y int `bcl:"b"`
+	}
+	return &Rec{}
+}
+
+var c15RecTargets = []func() any{localRecA, localRecB, localRecC}
+
+var c15RecBlocks = []map[string]any{
+	{"x": 1}, {"y": 2}, {"x": 1, "y": 2}, {"b": "s"}, {"b": 3}, {"x": 1, "b": "s"}, {"a": 5}, {"c": 6, "x": 7},
+}
+
+type c15Hist struct {
+	Steps [][2]int `json:"steps"` // (target index, block index) executed in order in one process state
+}
+
+func (c *c15Hist) Key() string { return fmt.Sprint(c.Steps) }
+
+var subC15Hist = &fw.Sub{Name: "c15.history", New: func() fw.Case { return &c15Hist{} }, Exec: func(cs fw.Case) *fw.Fail {
+	c := cs.(*c15Hist)
+	return fw.Guard(func() *fw.Fail {
+		var hist []string
+		for _, st := range c.Steps {
+			target := c15RecTargets[st[0]]()
+			fields := map[string]any{}
+			for k, v := range c15RecBlocks[st[1]] {
+				fields[k] = v
+			}
+			blk := bcl.Block{Type: "rec", Fields: fields}
+			hist = append(hist, fmt.Sprintf("Bind(%T#%d, %v)", target, st[0], fields))
+			err := bcl.Bind(target, bcl.StructBinding{Value: blk})
+			tv := reflect.ValueOf(target).Elem()
+			if err == nil {
+				if msg := notStored(tv, blk); msg != "" {
+					return fw.Failf("nil only if everything is stored, whatever was bound before", "after %v: Bind returned nil although %s (target now %+v)", hist, msg, tv.Interface())
+				}
+			} else if storable(reflect.New(tv.Type()).Elem(), blk) {
+				return fw.Failf("a fully storable block binds, whatever was bound before", "after %v: %v", hist, err)
+			}
+		}
+		fw.TallyOutcome("history-ok")
+		fw.TallyNontrivial()
+		return nil
+	})
+}}
+
+func c15Histories(c *fw.Ctx) {
+	n := len(c15RecTargets) * len(c15RecBlocks)
+	for a := 0; a < n; a++ {
+		for b := 0; b < n; b++ {
+			c.Do(subC15Hist, &c15Hist{Steps: [][2]int{{a / len(c15RecBlocks), a % len(c15RecBlocks)}, {b / len(c15RecBlocks), b % len(c15RecBlocks)}}})
+			if c.Thorough() {
+				for d := 0; d < n; d += 5 {
+					c.Do(subC15Hist, &c15Hist{Steps: [][2]int{{a / len(c15RecBlocks), a % len(c15RecBlocks)}, {b / len(c15RecBlocks), b % len(c15RecBlocks)}, {d / len(c15RecBlocks), d % len(c15RecBlocks)}}})
+				}
+			}
+		}
+	}
 }
